@@ -25,6 +25,7 @@ fn main() {
         "literal_exact" => literal_exact(&input),
         "expr_literal" => expr_literal(&input),
         "loop_runs" => loop_runs(&input),
+        "subst_signed_zero" => subst_signed_zero(&input),
         "name_spelling" => name_spelling(&input),
         "simplify_value" => simplify_value(&input),
         "frame_match" => frame_match(&input),
@@ -570,6 +571,33 @@ fn loop_runs(text: &str) -> Result<(), String> {
     let expected: Vec<Instruction> = if n == 0 { vec![] } else { (0..n).flat_map(|_| body.iter().cloned()).collect() };
     if executed != expected {
         return Err(format!("the body has {} instructions and n = {n}, but {} body instructions were executed", body.len(), executed.len()));
+    }
+    Ok(())
+}
+
+/// C13: each line is an expression over %x and %y; with x = -4+0i and y = -4-0i (equal as numbers, different in the
+/// sign of the zero imaginary part) substituting and then evaluating must agree with evaluating with the bindings
+fn subst_signed_zero(text: &str) -> Result<(), String> {
+    use num_complex::Complex64;
+    use quil_rs::expression::Expression;
+    use std::collections::HashMap;
+    let x = Complex64::new(-4.0, 0.0);
+    let y = Complex64::new(-4.0, -0.0);
+    for line in text.lines().map(str::trim).filter(|l| !l.is_empty()) {
+        let e = Expression::from_str(line).map_err(|e| format!("`{line}` does not parse: {e}"))?;
+        let bindings: HashMap<String, Complex64> = HashMap::from([("x".to_string(), x), ("y".to_string(), y)]);
+        let values: HashMap<String, Expression> =
+            HashMap::from([("x".to_string(), Expression::Number(x)), ("y".to_string(), Expression::Number(y))]);
+        let memory: HashMap<&str, Vec<f64>> = HashMap::new();
+        let direct = e.evaluate(&bindings, &memory).map_err(|e| format!("{e:?}"))?;
+        let substituted = e.substitute_variables(&values);
+        let after = substituted.evaluate(&HashMap::<String, Complex64>::new(), &memory).map_err(|e| format!("{e:?}"))?;
+        println!("{line}: with bindings {direct}, after substitution {after}");
+        if (direct - after).norm() > 1e-9 {
+            return Err(format!(
+                "`{line}` with x = -4+0i, y = -4-0i evaluates to {direct} with the bindings but to {after} after substituting them"
+            ));
+        }
     }
     Ok(())
 }
